@@ -97,4 +97,36 @@ def commit_types(lean_str, lean_list):
             "def commitTypeMembers : List String := " + lean_list([lean_str(c.name) for c in CommitType])]
 
 
-SECTIONS = [hash_options, stages, error_codes, codec_tables, commit_types]
+def signature_keys(lean_str, lean_list):
+    """the vocabulary of signature keys: every `HK(...)` expression in the source of dds/introspect.py (for an f-string:
+    its literal prefix), in order of first occurrence; plus the sentinels of dds_hash. `buildReturnSig_inj` splits a
+    signature by these prefixes: a new kind of key in the code must show up here."""
+    import ast
+    import inspect
+    import dds.introspect as di
+    import dds.fun_args as fa
+    tree = ast.parse(inspect.getsource(di))
+    keys = []
+    for node in ast.walk(tree):
+        if isinstance(node, ast.Call) and isinstance(node.func, ast.Name) and node.func.id == "HK" and node.args:
+            a = node.args[0]
+            if isinstance(a, ast.Constant) and isinstance(a.value, str):
+                k = a.value
+            elif isinstance(a, ast.JoinedStr) and a.values and isinstance(a.values[0], ast.Constant):
+                k = a.values[0].value + "*"
+            else:
+                k = "<dynamic>"
+            keys.append((node.lineno, node.col_offset, k))
+    ordered = []
+    for (_, _, k) in sorted(keys):
+        if k not in ordered:
+            ordered.append(k)
+    out = ["/-- every key (or key prefix, marked `*`) of a signature pair in dds/introspect.py -/",
+           "def sigKeys : List String := " + lean_list([lean_str(k) for k in ordered])]
+    src = inspect.getsource(fa)
+    sentinels = sorted(set(ast.literal_eval(m) for m in __import__("re").findall(r'"__DDS_[A-Z_]+__"', src)))
+    out += ["/-- the sentinel strings of dds_hash -/", "def hashSentinels : List String := " + lean_list([lean_str(k) for k in sentinels])]
+    return out
+
+
+SECTIONS = [hash_options, stages, error_codes, codec_tables, commit_types, signature_keys]
